@@ -46,10 +46,10 @@ def fmt(x):
     return str(int(xf))
 
 
-EXPS = [-44, -30, 20, 40]
+EXPS = [-600, -44, -30, 20, 40, 900]      # -600 / 900: products of two differences under-/overflow (fix c6242ee)
 
 
-def run_impl(det, chunks, as_float=None, exp=0):
+def run_impl(det, chunks, as_float=None, exp=0, container=None):
     """Run the real detector on the chunk list; return a dict of observables.
     `exp`: the samples are multiplied by 2**exp before they are fed and the reported values are divided by it again -
     exact in IEEE arithmetic, so the result must be identical for every exp (the counting rules only compare samples and
@@ -60,6 +60,18 @@ def run_impl(det, chunks, as_float=None, exp=0):
         arr = np.asarray(c, dtype=np.float64) * sc
         if as_float is not None:
             arr = as_float(arr)
+        if container == "list":
+            arr = [float(x) for x in arr]
+        elif container == "int64" and exp == 0 and as_float is None and all(float(x) == int(x) for x in arr):
+            arr = np.asarray([int(x) for x in arr], dtype=np.int64)
+        elif container == "view":
+            wide = np.empty(2 * len(arr), dtype=np.float64)
+            wide[:] = 12345.0
+            wide[::2] = arr
+            arr = wide[::2]                      # non-contiguous view
+        elif container == "series":
+            import pandas as pd
+            arr = pd.Series(arr, index=[f"k{i}" for i in range(len(arr))])
         d.process(arr)
     out = {
         "from": list(np.asarray(rec.values_from, dtype=float) / sc),
@@ -80,8 +92,12 @@ def canon(det, o):
         cyc = " ".join(f"{fmt(a)}>{fmt(b)}" for a, b in zip(o["from"], o["to"]))
     else:
         cyc = " ".join(f"{i}:{fmt(a)}>{j}:{fmt(b)}" for a, b, i, j in zip(o["from"], o["to"], o["ifrom"], o["ito"]))
-    return (f"cycles={cyc};residuals={' '.join(fmt(x) for x in o['residuals'])};"
-            f"rindex={' '.join(str(x) for x in o['rindex'])};chunks={' '.join(str(x) for x in o['chunks'])}")
+    out = f"cycles={cyc};residuals={' '.join(fmt(x) for x in o['residuals'])};rindex={' '.join(str(x) for x in o['rindex'])}"
+    if det == "fkm":
+        # the FKM detector reports no sample index to the recorder and (by the library's design, see AbstractDetector's doc
+        # string) no chunk sizes: whether it calls report_chunk() is not part of any property
+        return out
+    return out + f";chunks={' '.join(str(x) for x in o['chunks'])}"
 
 
 def split(signal, lens):
@@ -137,7 +153,21 @@ def random_signal(rng, n, mode):
     if mode == "ties":   # repeated extreme values and equal ranges
         levels = [-4, -2, 0, 2, 4]
         return [rng.choice(levels) for _ in range(n)]
+    if mode == "near_tie":
+        # ranges that differ by one part in 2**k (all values and all differences exact in double): a closing rule made
+        # "robust" with a relative tolerance, or a loss of precision (float32), decides these differently
+        k = rng.randrange(20, 51)
+        b = 1 << k
+        levels = [0, b, -b, b + 1, b - 1, -b - 1, -b + 1, b + 2, -b - 2, 1, -1, 2 * b, -2 * b, 2 * b + 1]
+        return [rng.choice(levels) for _ in range(n)]
     raise ValueError(mode)
+
+
+def to_double(sig):
+    """The integer signal mapped to doubles that are not integers (x -> 0.1 x + 0.3, strictly increasing on the integers used):
+    the detectors' arithmetic (differences, absolute values, comparisons) and the reference rules' arithmetic in Python
+    are the same IEEE operations, so everything is still compared exactly."""
+    return [x * 0.1 + 0.3 for x in sig]
 
 
 def random_cuts(rng, n):
@@ -153,7 +183,7 @@ def random_cuts(rng, n):
     return lens
 
 
-MODES = ["small", "wide", "plateau", "runs", "ties"]
+MODES = ["small", "wide", "plateau", "runs", "ties", "near_tie"]
 
 
 # ------------------------------------------------------------------ reference rules (oracle side, deliberately naive)
@@ -267,18 +297,29 @@ class C01(Prop):
                 yield {"det": det, "signal": sig, "lens": lens, "mode": mode, "float": True}
             if rng.random() < 0.25:
                 yield {"det": det, "signal": sig, "lens": lens, "mode": mode, "exp": rng.choice(EXPS)}
+            if rng.random() < 0.15:
+                yield {"det": det, "signal": sig, "lens": lens, "mode": mode, "container": rng.choice(["list", "int64", "view", "series"])}
 
     def model_lines(self, case):
         if case.get("float"):
             return []
-        return [rf_line(case["det"], case["signal"], case["lens"])]
+        out = [rf_line(case["det"], case["signal"], case["lens"])]
+        if case["det"] != "fkm":
+            n = len(case["signal"])
+            out.append(f"cli {len(case['lens'])} {' '.join(map(str, case['lens']))} {' '.join(map(str, range(n)))}")
+        return out
 
     def impl_lines(self, case):
         if case.get("float"):
             return []
-        o = run_impl(case["det"], split(case["signal"], case["lens"]), exp=case.get("exp", 0))
+        o = run_impl(case["det"], split(case["signal"], case["lens"]), exp=case.get("exp", 0), container=case.get("container"))
         self._count(case, o)
-        return [canon(case["det"], o)]
+        out = [canon(case["det"], o)]
+        if case["det"] != "fkm":
+            # the recorder's global -> (chunk, position) map for EVERY sample index, against the model's chunkLocalIndex
+            k, j = o["_rec"].chunk_local_index(np.arange(len(case["signal"])))
+            out.append(" ".join(f"{int(a)}:{int(b)}" for a, b in zip(np.atleast_1d(k), np.atleast_1d(j))))
+        return out
 
     def _count(self, case, o):
         s = self.stats
@@ -297,7 +338,7 @@ class C01(Prop):
         tf = (lambda a: a * 0.1 + 0.3) if case.get("float") else None
         if case.get("float"):
             self.stats["float_cases"] += 1
-        a = run_impl(det, split(sig, lens), tf, exp=case.get("exp", 0))
+        a = run_impl(det, split(sig, lens), tf, exp=case.get("exp", 0), container=case.get("container"))
         b = run_impl(det, [sig], tf, exp=case.get("exp", 0))
         for k in ("from", "to", "ifrom", "ito", "residuals", "rindex"):
             if k in a and a[k] != b[k]:
@@ -308,11 +349,15 @@ class C01(Prop):
             if tf:
                 vals = tf(vals * 2.0 ** case.get("exp", 0)) / 2.0 ** case.get("exp", 0)
             chunks = split(list(vals), lens)
-            for idx, val in list(zip(a["ifrom"], a["from"])) + list(zip(a["ito"], a["to"])):
+            flat = [x for c in chunks for x in c]
+            reported = list(zip(a["ifrom"], a["from"])) + list(zip(a["ito"], a["to"])) + list(zip(a["rindex"], a["residuals"]))
+            for idx, val in reported:
                 k, j = rec.chunk_local_index(np.asarray([idx]))
                 k, j = int(k[0]), int(j[0])
-                if not (0 <= k < len(chunks) and 0 <= j < len(chunks[k]) and chunks[k][j] == val):
-                    return (f"chunk_local_index({idx}) = ({k},{j}) does not address the sample with value {val}", "chunk-local-index")
+                # by position (the chunk and the place in it that hold global sample idx), and by value
+                if not (0 <= k < len(chunks) and 0 <= j < len(chunks[k]) and sum(lens[:k]) + j == idx and chunks[k][j] == val
+                        and flat[idx] == val):
+                    return (f"chunk_local_index({idx}) = ({k},{j}) is not the chunk/position of global sample {idx} (value {val}) for chunk lengths {lens}", "chunk-local-index")
         return None
 
     def shrink(self, case, still_fails):
@@ -375,7 +420,7 @@ class C02(Prop):
             "compared with the implementation's output; non-trivial = at least one cycle; distinct by (detector, signal)")
 
     def __init__(self):
-        self.stats = {"by_detector": {}, "by_mode": {}, "cycles_total": 0, "tie_cases": 0}
+        self.stats = {"by_detector": {}, "by_mode": {}, "cycles_total": 0, "tie_cases": 0, "double_cases": 0}
         self.exhaustive = False
 
     def generate(self, rng, tier):
@@ -398,6 +443,12 @@ class C02(Prop):
             yield {"det": det, "signal": sig, "mode": mode, "lens": random_cuts(rng, n)}
             # ... and at every scale: samples times an exact power of two (absolute tolerances in the code show up here)
             yield {"det": det, "signal": sig, "mode": mode, "exp": rng.choice(EXPS), "lens": random_cuts(rng, n) if rng.random() < 0.5 else None}
+            # ... and on doubles that are not integers (oracle only: the model's samples are integers)
+            if rng.random() < 0.5:
+                yield {"det": det, "signal": sig, "mode": mode, "fl": "map", "lens": random_cuts(rng, n) if rng.random() < 0.5 else None}
+            else:
+                yield {"det": det, "signal": [rng.choice([rng.uniform(-1, 1), rng.gauss(0, 1e3), round(rng.uniform(-2, 2), 1)]) for _ in range(n)],
+                       "mode": "doubles", "fl": "raw", "lens": random_cuts(rng, n) if rng.random() < 0.5 else None}
         # exhaustive: every partition of every plateau-rich signal over 3 values up to length 6 (quick: 5)
         ml = 5 if tier == "quick" else 6
         for n in range(2, ml + 1):
@@ -407,11 +458,15 @@ class C02(Prop):
                         yield {"det": DETS[(sum(sig) + len(lens)) % 3], "signal": list(sig), "mode": "exh-chunked", "lens": lens}
 
     def model_lines(self, case):
+        if case.get("fl"):
+            return []
         n = len(case["signal"])
         sig = " ".join(map(str, case["signal"]))
         return [rf_line(case["det"], case["signal"], case.get("lens") or [n]), f"spec {case['det']} {sig}"]
 
     def impl_lines(self, case):
+        if case.get("fl"):
+            return []
         det = case["det"]
         o = run_impl(det, split(case["signal"], case["lens"]) if case.get("lens") else [case["signal"]], exp=case.get("exp", 0))
         s = self.stats
@@ -422,6 +477,9 @@ class C02(Prop):
         # line 1: the Lean Spec functions are compared with the oracle's reference rules (so that the
         # specification used in the theorems is the specification the oracle holds the code against)
         tps = ref_turning_points(case["signal"])
+        rng_ = [abs(b[1] - a[1]) for a, b in zip(tps, tps[1:])]
+        if len(set(rng_)) < len(rng_):
+            s["tie_cases"] += 1                 # at least two equal ranges between successive turning points
         if det == "fkm":
             cycles, resid = ref_hcm([v for (_i, v) in tps[1:-1]])
             spec = f"cycles={' '.join(f'{a}>{b}' for a, b in cycles)};residuals={' '.join(map(str, resid))}"
@@ -438,6 +496,10 @@ class C02(Prop):
 
     def oracle(self, case):
         det, sig = case["det"], case["signal"]
+        if case.get("fl") == "map":
+            sig = to_double(sig)
+        if case.get("fl"):
+            self.stats["double_cases"] = self.stats.get("double_cases", 0) + 1
         o = run_impl(det, split(sig, case["lens"]) if case.get("lens") else [sig], exp=case.get("exp", 0))
         tps = ref_turning_points(sig)
         if det in ("fourpoint", "threepoint"):
@@ -504,6 +566,7 @@ def insert_nonreversals(rng, sig):
 
 class C03(Prop):
     ID = "C03"
+    PARALLEL = 8
     SOURCES = SOURCES
     NEEDS_EXT = True
     LEAN_MODULES = ["Proofs.C03"]
@@ -524,6 +587,10 @@ class C03(Prop):
         "PylifeVerif.C03.threePoint_insert_nonreversal",
         "PylifeVerif.C03.fkm_insert_nonreversal",
         "PylifeVerif.C03.fkm_insert_nonreversal_chunked",
+        "PylifeVerif.C03.insert_index_map",
+        "PylifeVerif.C03.fourPoint_insert_nonreversal_values",
+        "PylifeVerif.C03.threePoint_insert_nonreversal_chunked",
+        "PylifeVerif.C03.findTurnsNumpy_eq_reversals",
     ]
     PARTIAL = {}
     ASSUMPTIONS = [
@@ -556,10 +623,19 @@ class C03(Prop):
             if pos:
                 yield {"kind": "nan", "signal": sig, "nan_at": pos}
             yield {"kind": "sym", "signal": sig, "seed": rng.randrange(1 << 30), "det": rng.choice(DETS),
-                   "a": rng.choice([1, 2, 3, 7]), "b": rng.choice([-5, 0, 4, 100])}
+                   "a": rng.choice([1, 2, 3, 7]), "b": rng.choice([-5, 0, 4, 100]), "fl": rng.random() < 0.3}
             if rng.random() < 0.3:
                 yield {"kind": "series", "signal": sig, "det": rng.choice(DETS), "index": rng.choice(["shuffled", "float", "datetime", "string"]),
-                       "seed": rng.randrange(1 << 30)}
+                       "seed": rng.randrange(1 << 30), "nan_at": pos if rng.random() < 0.5 else []}
+        # exhaustive: NaN samples through the detectors - every signal over {0,1,2,NaN} (NaN away from the ends),
+        # every partition into chunks, three detectors
+        ml = 5 if tier == "quick" else 7
+        self.stats["exhaustive_scope_nan"] = f"detectors: all signals over {{0,1,2,NaN}} of length 3..{ml}, NaN not at the ends, x all partitions (thorough, length 7: 64 sampled partitions)"
+        for n in range(3, ml + 1):
+            for sig in itertools.product([0, 1, 2, None], repeat=n):
+                if sig[0] is None or sig[-1] is None or None not in sig:
+                    continue
+                yield {"kind": "nanx", "signal": list(sig)}
 
     def model_lines(self, case):
         if case["kind"] == "turns":
@@ -592,12 +668,48 @@ class C03(Prop):
             return None if not model_out or model_out[0] == "" else (case["kind"], tuple(case["signal"]), tuple(case.get("nan_at", [])))
         return (case["kind"], tuple(case["signal"]), case.get("seed"))
 
+    def _oracle_nanx(self, case):
+        """NaN samples at detector level: same values as the cleaned signal, indices in ORIGINAL coordinates, for every partition."""
+        sig = [float("nan") if x is None else float(x) for x in case["signal"]]
+        n = len(sig)
+        clean = [x for x in sig if x == x]
+        keep = [i for i, x in enumerate(sig) if x == x]          # position in the original of the i-th clean sample
+        self.stats["nanx_cases"] = self.stats.get("nanx_cases", 0) + 1
+        parts = list(compositions(n))
+        if len(parts) > 64:
+            import random as _random
+            parts = _random.Random(hash(tuple(case["signal"])) & 0xffff).sample(parts, 64)
+        with warnings.catch_warnings():
+            warnings.simplefilter("ignore")
+            for det in DETS:
+                ref_run = run_impl(det, [clean])
+                one = run_impl(det, [sig])
+                for k in ("from", "to", "residuals"):
+                    if one[k] != ref_run[k]:
+                        return (f"{det}: {k} with NaN samples {one[k]} != without {ref_run[k]} (signal {sig})", "nan-values")
+                if det != "fkm":
+                    for ik in ("ifrom", "ito", "rindex"):
+                        want = [keep[i] for i in ref_run[ik]]
+                        if one[ik] != want:
+                            return (f"{det}: {ik} with NaN samples {one[ik]}, expected the original positions {want} of the cleaned signal's {ref_run[ik]} (signal {sig})", "nan-index")
+                for lens in parts:
+                    if len(lens) == 1:
+                        continue
+                    ch = run_impl(det, split(sig, lens))
+                    for k in ("from", "to", "residuals", "ifrom", "ito", "rindex"):
+                        if k in one and ch[k] != one[k]:
+                            return (f"{det}: signal with NaNs {sig} fed in chunks {lens}: {k} {ch[k]} != one piece {one[k]}", "nan-chunked")
+        return None
+
     def oracle(self, case):
         import random
+        rf()
         kind = case["kind"]
         sig = case["signal"]
         if kind == "turns":
             return None
+        if kind == "nanx":
+            return self._oracle_nanx(case)
         if kind == "nan":
             # NaNs dropped with a warning, indices refer to the original signal
             from pylife.stress.rainflow.general import find_turns
@@ -642,9 +754,11 @@ class C03(Prop):
             self.stats["sym_cases"] += 1
             det = case["det"]
             r = random.Random(case["seed"])
-            base = run_impl(det, [sig])
             # refinement by non-reversal samples
             ref, imap = insert_nonreversals(r, sig)
+            if case.get("fl"):
+                sig, ref = to_double(sig), to_double(ref)        # strictly increasing map: the refinement stays a refinement
+            base = run_impl(det, [sig])
             o = run_impl(det, [ref])
             for k in ("from", "to", "residuals"):
                 if o[k] != base[k]:
@@ -662,11 +776,21 @@ class C03(Prop):
                     if k in base and sc[k] != base[k]:
                         return (f"{det}: scaling the signal by 2**{e} changes {k} (after scaling back): {base[k]} -> {sc[k]} (signal {sig})", "affine")
             if det != "fkm":
-                # indices move with the samples: the refined index must address an equal sample within the same plateau/run
-                for k in ("ifrom", "ito"):
-                    for g0, g1 in zip(base[k], o[k]):
-                        if ref[g1] != sig[g0] or not (imap[g0] <= g1 < (imap[g0 + 1] if g0 + 1 < len(imap) else len(ref))) and ref[g1] != sig[g0]:
-                            return (f"{det}: index {g0} moved to {g1} which holds a different sample", "refinement-index")
+                # indices move with the samples: the j-th turning point of the signal (first sample, reversals at the first
+                # sample of a plateau, last sample) is the j-th turning point of the refinement; every reported index of the
+                # base run must be reported at the corresponding position of the refined run - in one piece and in chunks
+                tb, tr = ref_turning_points(sig), ref_turning_points(ref)
+                if [v for _i, v in tb] != [v for _i, v in tr]:
+                    raise AssertionError("harness: refinement changed the turning point values")
+                move = {i: j for (i, _v), (j, _w) in zip(tb, tr)}
+                for k in ("ifrom", "ito", "rindex"):
+                    want = [move.get(g) for g in base[k]]
+                    for run, how in ((o, "in one piece"), (oc, f"in chunks {cuts}")):
+                        if run[k] != want:
+                            return (f"{det}: {k} of the refined signal {how} is {run[k]}, expected {want} (base {base[k]}; signal {sig} -> {ref})", "refinement-index")
+            else:
+                if oc["rindex"] != o["rindex"]:
+                    return (f"fkm: residual index of the refined signal in chunks {cuts} {oc['rindex']} != one piece {o['rindex']}", "refinement-index")
             # negation
             neg = run_impl(det, [[-x for x in sig]])
             for k in ("from", "to", "residuals"):
@@ -675,7 +799,7 @@ class C03(Prop):
             for k in ("ifrom", "ito", "rindex"):
                 if k in base and neg[k] != base[k]:
                     return (f"{det}: negation changed {k}", "negation")
-            if det != "fkm":
+            if det != "fkm" and not case.get("fl"):
                 a, b = case["a"], case["b"]
                 aff = run_impl(det, [[a * x + b for x in sig]])
                 for k in ("from", "to", "residuals"):
@@ -701,17 +825,28 @@ class C03(Prop):
                 index = pd.date_range("2020-01-01", periods=n, freq="s")
             else:
                 index = pd.Index([f"s{i}" for i in range(n)])
-            base = run_impl(det, [sig])
-            d, rec = make(det)
-            d.process(pd.Series(np.asarray(sig, dtype=float), index=index))
-            o = {"from": list(rec.values_from), "to": list(rec.values_to), "residuals": list(np.asarray(d.residuals, dtype=float)),
-                 "rindex": [int(x) for x in d.residual_index]}
-            if det != "fkm":
-                o["ifrom"] = [int(x) for x in rec.index_from]
-                o["ito"] = [int(x) for x in rec.index_to]
-            for k in o:
-                if o[k] != base[k]:
-                    return (f"{det}: Series with {case['index']} index differs from its value array in {k}", "series-index")
+            vals = np.asarray(sig, dtype=float)
+            for pnan in case.get("nan_at") or []:
+                if 0 < pnan < n - 1:
+                    vals[pnan] = np.nan
+            with warnings.catch_warnings():
+                warnings.simplefilter("ignore")
+                base = run_impl(det, [list(vals)])
+                for cuts in ([n], random_cuts(r, n)):
+                    d, rec = make(det)
+                    ser = pd.Series(vals, index=index)
+                    k0 = 0
+                    for ln in cuts:
+                        d.process(ser.iloc[k0:k0 + ln])
+                        k0 += ln
+                    o = {"from": list(rec.values_from), "to": list(rec.values_to), "residuals": list(np.asarray(d.residuals, dtype=float)),
+                         "rindex": [int(x) for x in np.asarray(d.residual_index).astype(np.int64)]}
+                    if det != "fkm":
+                        o["ifrom"] = [int(x) for x in rec.index_from]
+                        o["ito"] = [int(x) for x in rec.index_to]
+                    for k in o:
+                        if o[k] != base[k]:
+                            return (f"{det}: Series with {case['index']} index (chunks {cuts}, NaN at {case.get('nan_at')}) differs from its value array in {k}: {o[k]} vs {base[k]}", "series-index")
             return None
         return None
 
